@@ -324,6 +324,39 @@ def scenario_grow(sseed, kind):
     return tags
 
 
+def scenario_samename(sseed, kind):
+    """the documented pattern `units` under model=mlp / `units` under model=cnn, each with a domain of its own: every
+    issued trial must carry, for each name, a value from the domain of the entry that is ACTIVE under the trial's own
+    values (monitors only: the Lean space model has distinct names)"""
+    R = random.Random(sseed)
+    tags = collections.Counter()
+    for _ in range(30):
+        specs = gen.rand_specs(R, finite=R.random() < 0.6, samename=True, maxdepth=R.choice([1, 2]), top=(1, 2), nonfixed=(kind == "bayes"))
+        if len({s["name"] for s in specs}) < len(specs):
+            break
+    else:
+        return tags
+    tags["samename-space"] += 1
+    with tempdir("ktr") as d:
+        over = dict(max_epochs=R.randint(2, 6), factor=2, iterations=1) if kind == "hyperband" else dict(max_trials=R.randint(4, 14))
+        o = gen.make_oracle(R, kind, specs, d, **over)
+        starts = {}
+
+        def on_create(o_, w, t):
+            if t.status != "RUNNING":
+                return
+            check_values(t)
+            tags["trial-checked"] += 1
+            if t.hyperparameters.values.get("tuner/round", 0) != 0 or kind == "bayes":
+                return
+            cv = canon_vals({k: v for k, v in t.hyperparameters.values.items() if not k.startswith("tuner/")})
+            if cv in starts and starts[cv] != t.trial_id:
+                raise Violation("C06", f"{kind}: trial {t.trial_id} starts the configuration of trial {starts[cv]} again: {cv}", {"tag": "duplicate-samename", "kind": kind})
+            starts[cv] = t.trial_id
+        run_schedule(o, R, steps=R.randint(10, 60), on_create=on_create, fair_finish=False)
+    return tags
+
+
 def trace_of(sseed, kind):
     """the issued (id, values) sequence of a scripted schedule: used for the two-run / two-process comparison"""
     R = random.Random(sseed)
@@ -368,6 +401,9 @@ def run(seed, tier, n=None, subprocs=None, modes=("random", "random", "hyperband
             elif mode.startswith("grow"):
                 tags = scenario_grow(sseed, mode.split("-")[1])
                 lines, expect, doc = [], [], {"suite": "sampling", "mode": mode, "seed": sseed}
+            elif mode.startswith("samename"):
+                tags = scenario_samename(sseed, mode.split("-")[1])
+                lines, expect, doc = [], [], {"suite": "sampling", "mode": mode, "seed": sseed}
             else:
                 kind = kinds4[(i // 8) % 4]
                 a, b = trace_of(sseed, kind), trace_of(sseed, kind)
@@ -385,7 +421,7 @@ def run(seed, tier, n=None, subprocs=None, modes=("random", "random", "hyperband
         res.hist["mode-" + mode] += 1
         spans.append((len(all_lines), lines, expect, doc))
         all_lines += lines
-        if tags.get("collision-resampled") or tags.get("exhausted") or tags.get("discovered") or tags.get("new", 0) >= 3 or tags.get("rvalues", 0) >= 3 or tags.get("determinism"):
+        if tags.get("collision-resampled") or tags.get("exhausted") or tags.get("discovered") or tags.get("trial-checked", 0) >= 3 or tags.get("new", 0) >= 3 or tags.get("rvalues", 0) >= 3 or tags.get("determinism"):
             res.nontrivial.add(hashlib.sha1((json.dumps(lines, sort_keys=True) + str(sseed)).encode()).hexdigest())
         if len(res.samples) < 2 and lines and tags.get("collision-resampled"):
             res.samples.append({"scenario": doc, "ops": lines[1:3], "impl_answers": expect[1:3]})
@@ -432,6 +468,8 @@ def replay(doc):
             lines, expect, d, tags = scenario_rvalues(doc["seed"], mode)
         elif mode.startswith("grow"):
             scenario_grow(doc["seed"], mode.split("-")[1])
+        elif mode.startswith("samename"):
+            scenario_samename(doc["seed"], mode.split("-")[1])
             return res
         elif mode == "determinism":
             a, b = trace_of(doc["seed"], doc["kind"]), trace_of(doc["seed"], doc["kind"])
